@@ -59,7 +59,12 @@ thread_local! {
 }
 
 const ENTITIES: &[&str] = &["a.example", "b.example", "c.example:8448", "[::1]", ""];
-const VERSIONS: &[&str] = &["1", "key_2", "a+b", ""];
+const VERSIONS: &[&str] = &["1", "key_2", "a+b", "", V247, V248, V300];
+// key versions that bring the key ID `ed25519:<version>` to 255, 256 and 308 bytes: sign_json builds
+// the ID unchecked, verify_json parses it (seed3 C02-1)
+const V247: &str = "k23456789012345678901234567890123456789012345678901234567890123456789012345678901234567890123456789012345678901234567890123456789012345678901234567890123456789012345678901234567890123456789012345678901234567890123456789012345678901234567890123456_";
+const V248: &str = "k23456789012345678901234567890123456789012345678901234567890123456789012345678901234567890123456789012345678901234567890123456789012345678901234567890123456789012345678901234567890123456789012345678901234567890123456789012345678901234567890123456_8";
+const V300: &str = "k23456789012345678901234567890123456789012345678901234567890123456789012345678901234567890123456789012345678901234567890123456789012345678901234567890123456789012345678901234567890123456789012345678901234567890123456789012345678901234567890123456_89012345678901234567890123456789012345678901234567890";
 
 type Step = (String, usize, String);
 
